@@ -921,6 +921,8 @@ class Evaluator:
         raise AnalysisError("statement kind not modelled: %s at %s:%d" % (type(st).__name__, fr.modname, st.lineno))
 
     def assign(self, t, v, fr):
+        if isinstance(v, _Iter) and isinstance(t, (ast.Tuple, ast.List)):
+            v = tuple(_concrete_iter(v))  # a, b = <iterator object>: unpacking walks it to the end
         if isinstance(t, ast.Name):
             fr.env[t.id] = v
         elif isinstance(t, (ast.Tuple, ast.List)) and any(isinstance(e, ast.Starred) for e in t.elts):
@@ -2546,7 +2548,10 @@ class Evaluator:
         return self.comp(e, fr, "list")
 
     def e_GeneratorExp(self, e, fr):
-        return self.comp(e, fr, "gen")
+        r = self.comp(e, fr, "gen")
+        if isinstance(r, list) and os.environ.get("SA_GEN_AS_LIST") != "1":
+            r = _Iter(r)  # a generator expression is a one-shot iterator object too
+        return r
 
     def e_SetComp(self, e, fr):
         return T("setof", (tm._fz(self.comp(e, fr, "list")),))
@@ -3170,7 +3175,12 @@ class Evaluator:
             for f in rets[0].facts:
                 if isinstance(f, T) and f.op == "forall" and not any(tm.veq(f, g0) for g0 in fr.facts):
                     fr.facts.append(f)
-        return self.under_facts(sub.value(), fr)
+        val_ = self.under_facts(sub.value(), fr)
+        if isinstance(val_, list) and _is_generator(fi.node) and os.environ.get("SA_GEN_AS_LIST") != "1":
+            # calling a generator function hands out ONE iterator object: whoever consumes it (a loop, list(), zip, a second
+            # consumer) advances the same object -- a generator iterated twice is empty the second time
+            val_ = _Iter(val_)
+        return val_
 
     def _copy_out(self, fi, sub, e, fr, skip_self=False):
         """An out-parameter: the callee appends to a buffer / list the caller handed it (`out += x` on a parameter annotated
@@ -3214,6 +3224,8 @@ class Evaluator:
 
     # ---- methods on values
     def method(self, recv, meth, pos, kw, e, fr):
+        if any(isinstance(x_, _Iter) for x_ in pos):
+            pos = [(_concrete_iter(x_) if isinstance(x_, _Iter) else x_) for x_ in pos]  # sep.join(gen), lst.extend(gen): consumed
         if isinstance(recv, _BytesIO):
             if meth == "read" and len(pos) <= 1 and not kw:
                 n_ = pos[0] if pos else None
@@ -3475,8 +3487,14 @@ class Evaluator:
                  "struct.unpack": ("format", "buffer"), "struct.unpack_from": ("format", "buffer", "offset"), "os.path.join": (), "divmod": ("x", "y"),
                  "pow": ("base", "exp", "mod"), "round": ("number", "ndigits"), "functools.reduce": ("function", "iterable", "initial")}
 
+    _LAZY_CONSUMERS = {"iter", "next", "zip", "itertools.zip_longest", "itertools.islice", "itertools.chain", "isinstance", "type", "id", "callable", "bool"}
+
     def extern(self, name, pos, kw, e, fr):
         n = name[9:] if name.startswith("builtins.") else name
+        if n not in self._LAZY_CONSUMERS and any(isinstance(x_, _Iter) for x_ in pos):
+            # a function that takes an iterator object walks it to the end: it gets the elements that are left (and the object is
+            # exhausted afterwards)
+            pos = [(_concrete_iter(x_) if isinstance(x_, _Iter) else x_) for x_ in pos]
         sig = self._EXT_SIGS.get(n)
         if sig and kw and "**" not in kw:
             # keyword arguments of a library function in their positional places (f(**params), f(a, salt=s, ...))
@@ -3595,6 +3613,13 @@ class Evaluator:
             if symbolic:
                 return tm.lcat(out)
             return [x for part in out for x in part]
+        if name == "islice" and len(pos) == 2 and isinstance(pos[0], _Iter) and isinstance(pos[1], int) and not isinstance(pos[1], bool) and pos[1] >= 0:
+            it_ = pos[0]  # the next n elements of an iterator OBJECT: it stays where islice left it
+            if it_.partial:
+                it_.rest()
+            taken = it_.items[it_.pos:it_.pos + pos[1]]
+            it_.pos += len(taken)
+            return taken
         if name == "islice" and 2 <= len(pos) <= 4 and all(x is None or (isinstance(x, int) and not isinstance(x, bool)) for x in pos[1:]):
             xs = seq_of(pos[0])
             if xs is None:
@@ -3605,6 +3630,25 @@ class Evaluator:
             return NotImplemented if xs is None else [(a, b) for a, b in zip(xs, xs[1:])]
         if name == "repeat" and len(pos) == 2 and isinstance(pos[1], int):
             return [pos[0]] * pos[1]
+        if name == "zip_longest" and pos and any(isinstance(p_, _Iter) for p_ in pos) and all(isinstance(p_, _Iter) or seq_of(p_) is not None for p_ in pos):
+            # iterator objects are consumed in turn, one element per argument per round (the same iterator n times: groups of n,
+            # the last one filled up)
+            srcs = [p_ if isinstance(p_, _Iter) else _Iter(seq_of(p_)) for p_ in pos]
+            fill = kw.get("fillvalue")
+            rows = []
+            while True:
+                row, got = [], False
+                for it_ in srcs:
+                    if it_.pos < len(it_.items):
+                        row.append(it_.items[it_.pos])
+                        it_.pos += 1
+                        got = True
+                    else:
+                        row.append(fill)
+                if not got:
+                    break
+                rows.append(tuple(row))
+            return rows
         if name == "zip_longest" and pos:
             cols = [seq_of(p_) for p_ in pos]
             if any(c is None for c in cols):
